@@ -708,3 +708,61 @@ func TestLbvcScenarioTruncate(t *testing.T) {
 	}
 	lbvcScenarioTail(t, problems)
 }
+
+// Timestamp lookups: EarliestOffsetAfterTimestamp(ts) is the offset of the first message whose timestamp is >= ts
+// (the next offset if there is none); LatestOffsetBeforeTimestamp(ts) is the offset of the last message whose
+// timestamp is <= ts. On any segment layout, also with an empty active segment.
+func TestLbvcScenarioTimestamps(t *testing.T) {
+	var problems []string
+	dupes := strings.Contains(os.Getenv("LBVC_OBLIGATION"), "equal-timestamps") || os.Getenv("LBVC_OBLIGATION") == ""
+	layouts := [][]int64{{10, 20, 30, 40}, {10, 20, 30, 40, 50, 60, 70}, {10}, {10, 20}}
+	if dupes {
+		layouts = append(layouts, []int64{10, 20, 20, 20, 30}, []int64{10, 10, 10, 10})
+	}
+	for _, tss := range layouts {
+		for _, segBytes := range []int64{64, 150, 1 << 20} {
+			for _, emptyActive := range []bool{false, true} {
+				l, cleanup := lbvcLog(t, Options{MaxSegmentBytes: segBytes})
+				for i, ts := range tss {
+					l.Append([]*Message{{MagicByte: 1, Value: []byte(fmt.Sprintf("value-%d", i)), Timestamp: ts}})
+				}
+				if emptyActive {
+					// a full active segment rolls to an EMPTY one at the next split check
+					if split, err := l.checkAndPerformSplit(); err != nil || !split || !l.activeSegment().IsEmpty() {
+						cleanup()
+						continue
+					}
+				}
+				desc := fmt.Sprintf("timestamps %v, segment bytes %d (%d segments, active empty %v)", tss, segBytes, len(l.Segments()), emptyActive)
+				for ts := int64(5); ts <= tss[len(tss)-1]+5; ts += 5 {
+					wantE := int64(len(tss))
+					for i, x := range tss {
+						if x >= ts {
+							wantE = int64(i)
+							break
+						}
+					}
+					wantL := int64(-1)
+					for i, x := range tss {
+						if x <= ts {
+							wantL = int64(i)
+						}
+					}
+					if e, err := l.EarliestOffsetAfterTimestamp(ts); err != nil || e != wantE {
+						problems = append(problems, fmt.Sprintf("%s: EarliestOffsetAfterTimestamp(%d) = %d (err %v), the first message with a timestamp >= %d is at %d", desc, ts, e, err, ts, wantE))
+					}
+					la, err := l.LatestOffsetBeforeTimestamp(ts)
+					if wantL == -1 {
+						if err == nil {
+							problems = append(problems, fmt.Sprintf("%s: LatestOffsetBeforeTimestamp(%d) = %d, but no message is that old", desc, ts, la))
+						}
+					} else if err != nil || la != wantL {
+						problems = append(problems, fmt.Sprintf("%s: LatestOffsetBeforeTimestamp(%d) = %d (err %v), the last message with a timestamp <= %d is at %d", desc, ts, la, err, ts, wantL))
+					}
+				}
+				cleanup()
+			}
+		}
+	}
+	lbvcScenarioTail(t, problems)
+}
